@@ -87,6 +87,8 @@ size_t shim_eav_size (void);
 const char *shim_backend (void);
 int  shim_has_extra (void);
 int  shim_has_ndebug (void);
+extern unsigned g_sim_cov_new;            /* edges of the library reached for the first time since it was last zeroed */
+unsigned sim_cov_edges_hit (void); unsigned sim_cov_edges_total (void);
 int  shim_is_special_domain (const char *s, const char *e);
 void shim_init (void *e);
 void shim_free (void *e);
